@@ -1,9 +1,10 @@
 """fstrace — file-system operation recorder, canonicaliser and crash injector (DESIGN 2.4), shared by C05 and C11.
 
 * `run_traced(cmd, log, inject_when=k)` runs a command under
-  `strace -f -y -e trace=<file syscalls>`; with `inject_when=k` the k-th *mutating* file syscall of the process is
-  answered with a real SIGKILL (`-e inject=<set>:signal=SIGKILL:when=k`, delivered on syscall entry: calls 1..k-1 are
-  done, call k is not).
+  `strace -f -y -e trace=<file syscalls>`; with `inject_when=(name, n)` the n-th invocation of the mutating file
+  syscall `name` is answered with a real SIGKILL (`-e inject=name:signal=SIGKILL:when=n`, delivered on syscall entry:
+  everything before that call is done, the call itself is not). `kill_points` lists the (name, n) of every mutating call
+  a clean run makes under the cache directory.
 * `parse_log` / `Canon.canon` turn the strace log into model operations on canonical paths (paths relative to the scratch
   cache directory, argument-hash directories -> `E<arg>`, `.thread-<id>-pid-<pid>` suffixes -> `.tmp<participant>`).
 * `python fstrace.py worker <spec.json>` is the workload process (one cache user): it imports joblib from `spec.repo`,
@@ -38,10 +39,15 @@ PY = "/venv/bin/python"
 
 def run_traced(cmd, log, inject_when=None, env=None, timeout=120, cwd=None):
     """Run `cmd` under strace; returns (returncode, stdout, stderr). returncode of a SIGKILLed tracee is -9/137."""
-    st = ["strace", "-f", "-y", "-v", "-s", "300", "--seccomp-bpf", "-o", str(log), "-e", "trace=" + TRACE_SET]
-    if inject_when is not None:
-        # --seccomp-bpf is incompatible with nothing here, but injection needs the syscall-entry stop of the set
-        st += ["-e", f"inject={KILL_SET}:signal=SIGKILL:when={int(inject_when)}"]
+    st = ["strace", "-f", "-y", "-v", "-s", "300", "-o", str(log), "-e", "trace=" + TRACE_SET]
+    if inject_when is None:
+        st.insert(1, "--seccomp-bpf")  # faster; but injection is silently not performed with it (strace 6.1)
+    else:
+        # strace counts `when=` per system call number: (name, n) = the n-th invocation of `name` by the process
+        name, n = inject_when
+        if name not in KILL_NAMES:
+            raise ValueError(name)
+        st += ["-e", f"inject={name}:signal=SIGKILL:when={int(n)}"]
     p = subprocess.run(st + list(cmd), capture_output=True, text=True, timeout=timeout, env=env, cwd=cwd)
     return p.returncode, p.stdout, p.stderr
 
@@ -313,7 +319,8 @@ class Canon:
                     if cp is not None:
                         emit(tid, f"stat {cp} {'yes' if err is None else 'no'}", idx)
                 elif nm in ("ftruncate", "truncate", "link", "linkat", "symlink", "symlinkat"):
-                    emit(tid, f"{nm} ? unexpected", idx)
+                    if self.root in c["args"]:
+                        emit(tid, f"{nm} ? unexpected", idx)
             except (IndexError, TypeError, AttributeError):
                 continue
         return ops
@@ -324,21 +331,21 @@ def kill_points(calls, canon: Canon):
     lands on a syscall under the cache directory. -> list of dict(when, op, op_index) in order."""
     ops = canon.canon(calls, with_raw_index=True)
     raw_to_op = {idx: (i, s) for i, (_, s, idx) in enumerate(ops)}
-    pts, n = [], 0
-    per_tid_n = {}
+    pts, per = [], {}
     for idx, c in enumerate(calls):
         if c["name"] in KILL_NAMES:
-            n += 1
+            per[c["name"]] = per.get(c["name"], 0) + 1
+            when = (c["name"], per[c["name"]])
             if idx in raw_to_op:
                 i, s = raw_to_op[idx]
-                pts.append(dict(when=n, op=s, op_index=i))
+                pts.append(dict(when=when, op=s, op_index=i))
             else:
-                # a later write(2) of a merged `write P` / a mutating call that canon dropped: still a crash point
+                # a later write(2) of a merged `write P`: still a crash point
                 a = _split_args(c["args"])
                 p = _fdpath(a[0]) if a and c["name"] in ("write", "pwrite64") else None
                 cp = canon.path(p) if p else None
                 if cp is not None:
-                    pts.append(dict(when=n, op=f"write+ {cp}", op_index=None))
+                    pts.append(dict(when=when, op=f"write+ {cp}", op_index=None))
     return pts
 
 
